@@ -49,42 +49,68 @@ func Run(o *corr.Out) {
 	all = append(all, g.matrix()...)
 	all = append(all, g.collisions()...)
 	all = append(all, g.hostile()...)
-	nrand := 60
+	nrand, nsplit, nshared := 60, 16, 10
 	if o.Thorough {
-		nrand = 3000
+		nrand, nsplit, nshared = 3000, 400, 200
 	}
+	all = append(all, g.splitPoints(nsplit)...)
+	all = append(all, g.sharedMethodFamilies(nshared)...)
 	for i := 0; i < nrand; i++ {
 		all = append(all, g.random())
 	}
-	// executed subset: quick = one per (shape set, protolib) of the matrix plus a few hostile ones
-	execBudget := 10
+	// executed subset: quick = one per (shape set, protolib) of the matrix plus a few hostile ones, one
+	// split-point package and one package of services sharing method names
+	execBudget := 12
 	if o.Thorough {
-		execBudget = 120
+		execBudget = 160
 	}
 	picked := map[string]bool{}
-	for _, d := range all {
-		key := d.Tag + "/" + d.libKind()
-		switch {
-		case d.Tag == "matrix" && len(d.Files[0].Services[0].Methods) == 4 && d.JSON != 0:
-		case strings.HasPrefix(d.Tag, "hostile:multi-file"), strings.HasPrefix(d.Tag, "hostile:nested"), strings.HasPrefix(d.Tag, "hostile:runtime-names"),
-			strings.HasPrefix(d.Tag, "hostile:underscores"), d.Tag == "hostile:dep-package-name" && d.DepBase == "drpc":
-		case o.Thorough && (d.Tag == "random" || strings.HasPrefix(d.Tag, "hostile:") || strings.HasPrefix(d.Tag, "near-miss:") || d.Tag == "matrix"):
-			key = ""
-		default:
-			continue
-		}
-		if d.GoPkg == 1 && d.GoName == "main" {
-			continue
-		}
-		if key != "" && picked[key] && !o.Thorough {
-			continue
-		}
-		if execBudget == 0 {
+	perTag := map[string]int{}
+	// pass 0: the fixed selection; pass 1 (thorough): everything that must compile, with a cap per random
+	// class so that no class uses up the budget of the classes generated after it
+	for pass := 0; pass < 2; pass++ {
+		if pass == 1 && !o.Thorough {
 			break
 		}
-		picked[key] = true
-		d.WantExec = true
-		execBudget--
+		for _, d := range all {
+			key := d.Tag + "/" + d.libKind()
+			switch {
+			case d.WantExec:
+				continue
+			case d.Tag == "matrix" && len(d.Files[0].Services[0].Methods) == 4 && d.JSON != 0:
+			case strings.HasPrefix(d.Tag, "hostile:multi-file"), strings.HasPrefix(d.Tag, "hostile:nested"), strings.HasPrefix(d.Tag, "hostile:runtime-names"),
+				strings.HasPrefix(d.Tag, "hostile:underscores"), d.Tag == "hostile:dep-package-name" && d.DepBase == "drpc":
+			case d.Tag == "near-miss:split-point" && len(d.Files[0].Services) >= 3, d.Tag == "hostile:shared-methods":
+				// several services of one package on one mux: coinciding concatenations, shared method names
+			case pass == 1 && (d.Tag == "random" || strings.HasPrefix(d.Tag, "hostile:") || strings.HasPrefix(d.Tag, "near-miss:") || d.Tag == "matrix"):
+				key = ""
+				limit := 1 << 30
+				switch {
+				case d.Tag == "random":
+					limit = 25
+				case strings.HasSuffix(d.Tag, "-random"):
+					limit = 15
+				}
+				if perTag[d.Tag] >= limit {
+					continue
+				}
+			default:
+				continue
+			}
+			if d.GoPkg == 1 && d.GoName == "main" {
+				continue
+			}
+			if key != "" && picked[key] && !o.Thorough {
+				continue
+			}
+			if execBudget == 0 {
+				break
+			}
+			picked[key] = true
+			perTag[d.Tag]++
+			d.WantExec = true
+			execBudget--
+		}
 	}
 	for _, d := range all {
 		r.process(d)
